@@ -147,12 +147,13 @@ func (p *ProbeStore) RevertBlock(s consensus.State, cru consensus.RevertUpdate) 
 
 // NewProbedNode is MustNode with the manager running over a ProbeStore.
 func (net *Net) NewProbedNode() *Node {
-	store, tip, err := chain.NewDBStore(chain.NewMemDB(), net.N, net.Genesis, nil)
+	db := chain.NewMemDB()
+	store, tip, err := chain.NewDBStore(db, net.N, net.Genesis, nil)
 	if err != nil {
 		panic(err)
 	}
 	ps := &ProbeStore{DBStore: store}
-	nd := &Node{Net: net, Store: store, Probe: ps}
+	nd := &Node{Net: net, DB: db, Store: store, Probe: ps}
 	nd.CM = chain.NewManager(ps, tip)
 	ps.SetManager(nd.CM)
 	nd.CM.OnReorg(func(ci types.ChainIndex) { nd.Reorgs = append(nd.Reorgs, ci) })
